@@ -24,7 +24,7 @@ RULE = ("hostile connections: one hostile item (a mutated message or garbage) se
 ASSUMPTIONS = ["a peer that stalls forever mid-message on the single-threaded multiplex server without a timeout is documented behaviour; hostile clients always close (after <=50 ms)",
                "'still accepts / keeps receiving' = within a 10 s watchdog after the last hostile socket is closed",
                "BaseException-only exceptions (SystemExit ...) raised by methods are outside the statement ('Exception subclasses')"]
-REQUIRED_REACH = ["served_while_handshakes_stalled", "abandoned_streams_swept", "injected_yields", "hostile_connections", "witness_calls_ok", "post_attack_handshake_ok", "accounting_restored", "refused_by_full_pool", "error_replies_seen", "stream_guess_phases_ok"]
+REQUIRED_REACH = ["discovery_responder_ok", "served_while_handshakes_stalled", "abandoned_streams_swept", "injected_yields", "hostile_connections", "witness_calls_ok", "post_attack_handshake_ok", "accounting_restored", "refused_by_full_pool", "error_replies_seen", "stream_guess_phases_ok"]
 SHARD_TIMEOUT = {"quick": 240, "thorough": 3000}
 
 
@@ -492,12 +492,25 @@ def stalled_phase(fx, P, rec, cfgkey, pay):
 
 
 def run_config(P, cfg, rec, r, n_items):
-    fx = fixture.Fixture(servertype=cfg["servertype"], unix=cfg.get("unix", False), ssl=cfg.get("ssl", False), COMMTIMEOUT=cfg["commtimeout"], THREADPOOL_SIZE=cfg["pool"], THREADPOOL_SIZE_MIN=2, ITER_STREAMING=True,
+    fx = fixture.Fixture(servertype=cfg["servertype"], unix=cfg.get("unix", False), ssl=cfg.get("ssl", False), start_loop=not cfg.get("bc"), COMMTIMEOUT=cfg["commtimeout"], THREADPOOL_SIZE=cfg["pool"], THREADPOOL_SIZE_MIN=2, ITER_STREAMING=True,
                          ITER_STREAM_LINGER=0.2, ITER_STREAM_LIFETIME=1.0)      # abandoned streams expire (housekeeping) while the attack is still going on
-    cfgkey = "%s/%s/%s%s" % (cfg["servertype"], cfg["commtimeout"], cfg["pool"], "/unix" if cfg.get("unix") else "")
+    cfgkey = "%s/%s/%s%s%s" % (cfg["servertype"], cfg["commtimeout"], cfg["pool"], "/unix" if cfg.get("unix") else "", "/bc" if cfg.get("bc") else "")
     pay = {"cfg": cfg}
+    bc = None
     try:
         fx.register(make_service(P), "svc")
+        if cfg.get("bc"):
+            # the name server's UDP discovery responder next to the daemon: in the daemon's own loop (multiplex: Daemon.combine, the documented
+            # use of its adapter) or in a thread of its own (thread server). Datagrams are client input too.
+            import Pyro5.nameserver
+            bc = Pyro5.nameserver.BroadcastServer(fx.daemon.uriFor("svc"), bchost="127.0.0.1", bcport=0)
+            if cfg["servertype"] == "multiplex":
+                fx.daemon.combine(bc)
+                bc_thread = None
+            else:
+                bc_thread = bc.runInThread()
+            fx.thread.start()
+            rec.count("daemons_with_broadcast_responder")
         # clients of every serializer are connected all along (a small pool leaves room for two: which two rotates with the configuration)
         wsers = list(fixture.SERIALIZERS)
         r.shuffle(wsers)
@@ -537,8 +550,24 @@ def run_config(P, cfg, rec, r, n_items):
                 # liveness is read directly, not guessed from a timeout
                 if not fx.loop_alive():
                     return
+        def udp_attacker():
+            u = socket.socket(socket.AF_INET, socket.SOCK_DGRAM)
+            rr = gen.rng(rec.seed, "c05-udp", cfgkey)
+            grams = [b"", b"GET_NSURI", b"GET_NSURI\n", b"get_nsuri", b"\xff\xfe", b"GET_NSURI\xe9", "GET_NSURI\u20ac".encode("utf-8"), b"\x00" * 100, b"G" * 1500, b"\x80"]
+            try:
+                for k in range(300):
+                    g = rr.choice(grams) if k % 3 else bytes(rr.randrange(256) for _ in range(rr.randrange(1, 120)))
+                    try:
+                        u.sendto(g, ("127.0.0.1", bc.getPort()))
+                    except OSError:
+                        pass
+                    rec.count("hostile_datagrams")
+                    if k % 50 == 0:
+                        time.sleep(0.01)
+            finally:
+                u.close()
         nthreads = 4 if cfg["pool"] > 5 else 6
-        ts = [threading.Thread(target=attacker, daemon=True) for _ in range(nthreads)]
+        ts = [threading.Thread(target=attacker, daemon=True) for _ in range(nthreads)] + ([threading.Thread(target=udp_attacker, daemon=True)] if bc is not None else [])
         for t in ts:
             t.start()
         for t in ts:
@@ -586,6 +615,27 @@ def run_config(P, cfg, rec, r, n_items):
                 rec.violation("request-loop-died", "request loop dead after the attack: %r" % (fx.loop_exc,), dict(pay, last=last))
             return
         rec.count("post_attack_handshake_ok")
+        if bc is not None:
+            u = socket.socket(socket.AF_INET, socket.SOCK_DGRAM)
+            u.settimeout(1.0)
+            answer = None
+            try:
+                for _ in range(5):
+                    u.sendto(b"GET_NSURI", ("127.0.0.1", bc.getPort()))
+                    try:
+                        answer, _addr = u.recvfrom(500)
+                        break
+                    except socket.timeout:
+                        continue
+            finally:
+                u.close()
+            if bc_thread is not None and not bc_thread.is_alive():
+                rec.violation("server-thread-died", "the discovery responder's thread died during the attack (hostile datagrams)", dict(pay, last=last))
+                return
+            if answer is None or not answer.startswith(b"PYRO:svc@"):
+                rec.violation("discovery-responder-silent-after-attack", "after the attack a GET_NSURI datagram got %r (5 tries)" % (answer,), dict(pay, last=last))
+                return
+            rec.count("discovery_responder_ok")
         if cfg["servertype"] == "thread" and cfg["pool"] > 5:
             if not stalled_phase(fx, P, rec, cfgkey, dict(pay, last=last)):
                 return
@@ -609,6 +659,11 @@ def run_config(P, cfg, rec, r, n_items):
         rec.count("accounting_restored")
     finally:
         fx.stop()
+        if bc is not None:
+            try:
+                bc.close()
+            except Exception:
+                pass
 
 
 def plan(tier, seed):
@@ -623,6 +678,9 @@ def plan(tier, seed):
     # daemons on a unix domain socket
     cfgs.append({"servertype": "multiplex", "pool": 40, "commtimeout": 0.0, "unix": True})
     cfgs.append({"servertype": "thread", "pool": 40, "commtimeout": 0.6, "unix": True})
+    # daemons with the name server's UDP discovery responder next to them (combined into the loop / in its own thread)
+    cfgs.append({"servertype": "multiplex", "pool": 40, "commtimeout": 0.0, "bc": True})
+    cfgs.append({"servertype": "thread", "pool": 40, "commtimeout": 0.0, "bc": True})
     # daemons that speak TLS
     cfgs.append({"servertype": "thread", "pool": 40, "commtimeout": 0.0, "ssl": True})
     cfgs.append({"servertype": "multiplex", "pool": 40, "commtimeout": 0.6, "ssl": True})
